@@ -148,7 +148,7 @@ EXTRA_VM_OBLIGATIONS = {"C19": [("CCT.proofs.Ed25519Vectors", "vectors_hold")]}
 # second property files holding the SEMANTIC SOURCE TIE: the functions of the package as translated from the working tree on this run
 # (Gen/Source.v), interpreted (PySrc.v), compute what the hand-written model computes.  Like the source pins these obligations belong to
 # the tie between model and code: when only they (and the pin) break, the model and its theorems are intact.
-TIE_FILES = {"C15": ["C15_src"], "C14": ["C14_src"], "C13": ["C13_src"], "C09": ["C09_src"], "C05": ["C05_src"], "C06": ["C05_src"]}
+TIE_FILES = {"C15": ["C15_src"], "C14": ["C14_src"], "C13": ["C13_src"], "C09": ["C09_src"], "C05": ["C05_src"], "C06": ["C05_src"], "C03": ["C03_src"], "C04": ["C03_src"]}
 THEOREM_RE = re.compile(r"^\s*(Theorem|Example)\s+([A-Za-z0-9_']+)", re.M)
 
 
